@@ -9,7 +9,14 @@ pub struct FakeBedRead {
 impl BBIFileRead for FakeBedRead {
     type Reader = std::io::Cursor<Vec<u8>>;
     fn get_block_data(&mut self, _info: &BBIFileInfo, _block: &Block) -> io::Result<Vec<u8>> {
-        Ok(self.block.clone())
+        // byte loop, not clone(): see verif_support::bbuf
+        let mut v = Vec::with_capacity(self.block.len());
+        let mut i = 0;
+        while i < self.block.len() {
+            v.push(self.block[i]);
+            i += 1;
+        }
+        Ok(v)
     }
     fn blocks_for_cir_tree_node(&mut self, _e: Endianness, _o: u64, _c: u32, _s: u32, _en: u32) -> io::Result<(SmallVec<[u64; 4]>, SmallVec<[Block; 4]>)> {
         Err(io::Error::from(io::ErrorKind::Other))
@@ -33,15 +40,22 @@ fn bed_info(big: bool) -> BBIFileInfo {
 }
 fn b32(v: &mut Vec<u8>, big: bool, x: u32) {
     let b = if big { x.to_be_bytes() } else { x.to_le_bytes() };
-    v.extend_from_slice(&b);
+    v.push(b[0]); v.push(b[1]); v.push(b[2]); v.push(b[3]);
 }
 
-fn block_entries(big: bool) {
-    let (s0, e0, s1, e1): (u32, u32, u32, u32) = (kani::any(), kani::any(), kani::any(), kani::any());
+fn block_entries(big: bool, sym_starts: bool) {
+    // One coordinate of each entry is concrete and non-zero: the reader's end-of-block convention
+    // `start == 0 && end == 0 -> Err` sits inside a closure, and with both coordinates symbolic the Err path and
+    // the Ok path are merged when the closure returns - the buffer position becomes an if-then-else and every
+    // later loop over the remaining bytes is unwound to the bound (measured: symex > 40 min / 20 GB). With one
+    // concrete non-zero coordinate the test folds to false. The two variants together cover symbolic starts
+    // and symbolic ends; (0,0) entries are excluded in both (D10, seen by reading).
+    let (s0, e0, s1, e1): (u32, u32, u32, u32) = if sym_starts {
+        (kani::any(), 50, kani::any(), 40)
+    } else {
+        (3, kani::any(), 6, kani::any())
+    };
     kani::assume(s0 <= s1 && s0 <= e0 && s1 <= e1);
-    // (an entry with start == end == 0 is the reader's end-of-block padding convention: excluded here and
-    //  recorded in DESIGN.md as D10, seen by reading)
-    kani::assume(e0 > 0 && e1 > 0);
     // the rest field is CONCRETE ('x'): with symbolic rest bytes the position of the terminating NUL is
     // symbolic and String::from_utf8 runs its validation loop over a symbolic length (did not finish in 40 min)
     let r0: u8 = b'x';
@@ -93,36 +107,70 @@ fn block_entries(big: bool) {
 
 // @harness c02_block_entries
 // @props C02 C04 C10
-// @tier off
+// @tier quick
 // @kind core
 // @timeout 2400
 // @mem 24
-// @functions bigbedread::get_block_entries, through BigBedRead<FakeBedRead>
-// @bounds one little-endian block with 2 entries (independent encoder; coordinates full width; rest fields `x` and empty (concrete)); arbitrary query
-// @stubs FakeBedRead implements the public BBIFileRead trait (uncompressed block bytes); alloc::fmt::format -> empty; Vec::push -> grows normally (entries vector starts empty)
-// @assumes entries start-sorted with start <= end and end > 0 (the (0,0) entry is excluded: D10)
+// @sub src/bbi/bigbedread.rs ::: use bytes::{Buf, BytesMut}; ::: use crate::verif_support::bbuf::BytesMut;
+// @functions bigbedread::get_block_entries, through BigBedRead<FakeBedRead>; bytes::BytesMut replaced by the model verif_support::bbuf (agreement: c02_bytes_model_agrees)
+// @bounds one little-endian block with 2 entries (independent encoder; starts 3 and 6, ends symbolic full width (nested allowed); rest fields `x` and empty (concrete)); arbitrary query
+// @stubs FakeBedRead implements the public BBIFileRead trait (uncompressed block bytes); alloc::fmt::format -> empty; String::from_utf8 -> trusting conversion (rest fields are ASCII by construction; invalid UTF-8 in a file is a malformed-file question, not part of this harness); bytes::BytesMut -> model (see functions)
+// @assumes entries start-sorted with start <= end; one coordinate per entry concrete and non-zero (see the comment in block_entries: the (0,0) end-of-block convention, D10)
 // @cut zlib; more than 2 entries; multi-byte UTF-8 in the rest field
 // @witness cover: both entries returned; first filtered out; nested entry
 #[kani::proof]
-#[kani::unwind(8)]
+#[kani::unwind(30)]
 #[kani::stub(alloc::fmt::format, crate::verif_support::fake_format)]
+#[kani::stub(std::string::String::from_utf8, crate::verif_support::from_utf8_trusting)]
 fn c02_block_entries() {
-    block_entries(false);
+    block_entries(false, false);
 }
 
 // @harness c10_block_entries_bigendian
 // @props C10 C04
-// @tier off
+// @tier quick
 // @kind stretch
 // @timeout 2400
 // @mem 24
+// @sub src/bbi/bigbedread.rs ::: use bytes::{Buf, BytesMut}; ::: use crate::verif_support::bbuf::BytesMut;
 // @functions as c02_block_entries, big-endian file
-// @bounds as c02_block_entries
+// @bounds as c02_block_entries, but with symbolic starts and concrete ends 50 and 40 (second entry nested)
 // @stubs as c02_block_entries
 // @assumes as c02_block_entries
 #[kani::proof]
-#[kani::unwind(8)]
+#[kani::unwind(30)]
 #[kani::stub(alloc::fmt::format, crate::verif_support::fake_format)]
+#[kani::stub(std::string::String::from_utf8, crate::verif_support::from_utf8_trusting)]
 fn c10_block_entries_bigendian() {
-    block_entries(true);
+    block_entries(true, true);
+}
+
+// @harness probe_block_entries_concrete_query
+// @props X
+// @tier off
+// @kind stretch
+// @timeout 900
+// @mem 16
+// @sub src/bbi/bigbedread.rs ::: use bytes::{Buf, BytesMut}; ::: use crate::verif_support::bbuf::BytesMut;
+// @functions probe only
+// @bounds probe
+#[kani::proof]
+#[kani::unwind(30)]
+#[kani::stub(alloc::fmt::format, crate::verif_support::fake_format)]
+#[kani::stub(std::string::String::from_utf8, crate::verif_support::from_utf8_trusting)]
+fn probe_block_entries_concrete_query() {
+    let (s0, e0, s1, e1): (u32, u32, u32, u32) = (kani::any(), kani::any(), kani::any(), kani::any());
+    kani::assume(s0 <= s1 && s0 <= e0 && s1 <= e1);
+    kani::assume(e0 > 0 && e1 > 0);
+    let mut b: Vec<u8> = Vec::with_capacity(32);
+    b32(&mut b, false, 7); b32(&mut b, false, s0); b32(&mut b, false, e0); b.push(b'x'); b.push(0);
+    b32(&mut b, false, 7); b32(&mut b, false, s1); b32(&mut b, false, e1); b.push(0);
+    let blen = b.len() as u64;
+    let mut bb = BigBedRead { info: bed_info(false), read: FakeBedRead { block: b } };
+    let mut known: u64 = 0;
+    let r = get_block_entries(&mut bb, Block { offset: 0, size: blen }, &mut known, 7, 0, u32::MAX);
+    let ok = r.is_ok();
+    core::mem::forget(r);
+    assert!(ok);
+    core::mem::forget(bb);
 }
